@@ -18,8 +18,8 @@
 EXTENDS Naturals, Integers, Sequences, FiniteSets, TLC, Monomial
 
 CONSTANTS MaxOps, MaxLen
-VARIABLES orig, circ, last
-vars == <<orig, circ, last>>
+VARIABLES orig, osem, circ, last       \* osem = SemTable(orig), computed once per initial circuit
+vars == <<orig, osem, circ, last>>
 
 R == <<2, 2>>
 Op(g, loc) == [g |-> g, p |-> <<0>>, loc |-> loc, t |-> <<[idx |-> 0, ph |-> 0]>>, ops |-> <<>>]
@@ -27,11 +27,11 @@ Alphabet == {Op(g, <<q>>) : g \in {"X", "Z", "S", "T"}, q \in {0, 1}}
             \cup {Op(g, l) : g \in {"CX", "CY", "CZ", "SWAP"}, l \in {<<0, 1>>, <<1, 0>>}}
 
 Init == /\ \E n \in 0..MaxOps : orig \in [1..n -> Alphabet]
-        /\ circ = orig /\ last = "init"
+        /\ circ = orig /\ last = "init" /\ osem = SemTable(orig, R)
 
 Splice(c, i, k, new) == SubSeq(c, 1, i - 1) \o new \o SubSeq(c, i + k, Len(c))      \* replace k ops at position i
 Step(rule, c) == /\ Len(c) <= MaxLen
-                 /\ circ' = c /\ last' = rule /\ UNCHANGED orig
+                 /\ circ' = c /\ last' = rule /\ UNCHANGED <<orig, osem>>
 
 SwapToCX == \E i \in 1..Len(circ) : circ[i].g = "SWAP" /\
               LET a == circ[i].loc[1]  b == circ[i].loc[2]
@@ -63,8 +63,9 @@ Next == SwapToCX \/ CYToCX \/ CXToCY \/ CZToCX \/ CZFlip \/ XThroughCX \/ ZThrou
 Spec == Init /\ [][Next]_vars
 
 \* rewriting never changes the operator: exactly (these rules fix the global phase too), hence up to global phase
-SemPreserved == SameExactly(SemTable(circ, R), SemTable(orig, R))
-SemPreservedUpToPhase == SameUpToPhase(SemTable(circ, R), SemTable(orig, R))
+SemPreserved == LET T == SemTable(circ, R) IN SameExactly(T, osem) /\ SameUpToPhase(T, osem)
+\* the stored table is the semantics of the stored initial circuit (checked on initial states only: it never changes)
+OrigSem == last = "init" => osem = SemTable(orig, R)
 \* a rule that removes its source gate at one position does not leave the gate name behind there (sanity of Splice)
 WellFormed == /\ Len(circ) <= MaxLen
               /\ \A i \in 1..Len(circ) : Len(circ[i].loc) \in {1, 2} /\ \A j \in 1..Len(circ[i].loc) : circ[i].loc[j] \in {0, 1}
